@@ -295,6 +295,9 @@ func genProgram(r *hk.Rand) *program {
 		default:
 			oc = outcome{Kind: "ctxcancel"}
 		}
+		if (oc.Kind == "status" || oc.Kind == "err" || oc.Kind == "deadline") && r.Chance(6) {
+			oc.WaitCancel = true
+		}
 		if strings.HasPrefix(oc.Kind, "status") && r.Chance(12) {
 			for i, n := 0, r.Range(1, 2); i < n; i++ {
 				oc.SetCookie = append(oc.SetCookie, [2]string{hk.Pick(r, []string{"srv", "sid", "a", "tok"}), hk.Pick(r, tokVals)})
@@ -534,6 +537,7 @@ func coqCase(p *program, o *observation) (string, bool) {
 	}
 	rs := fmt.Sprintf("(mkR %s %s %s %s %s %s %s %s %s %s %s %s %s %s %s)", hk.CoqStr(sh.Method), hk.CoqStr(sh.RawQuery), coqAmap(sh.RHeaders), coqCookies(sh.RCookies),
 		coqAmap(sh.RForm), coqAmap(sh.RQuery), body, gb, reader, unrep, hk.CoqZ(int64(p.Stale)), hk.CoqStr(sh.path()), coqCookies(sh.RPParams), coqCookies(sh.Ordered), marshal)
+	waitCancelEffective := effectiveOf(p).Interval > 0 // only the logging interval functions end the context
 	var script []string
 	for k, oc := range p.Script {
 		var out string
@@ -560,7 +564,7 @@ func coqCase(p *program, o *observation) (string, bool) {
 				after = append(after, "None")
 			}
 		}
-		script = append(script, fmt.Sprintf("mkAin %s %s", out, hk.CoqList(after)))
+		script = append(script, fmt.Sprintf("mkAin %s %s %s", out, hk.CoqList(after), hk.CoqBool(oc.WaitCancel && waitCancelEffective)))
 	}
 	// header keys on which the outgoing requests are compared with the model
 	keyset := map[string]bool{"Content-Type": true}
